@@ -620,6 +620,10 @@ def judge_entry(ctx, case):
                 kw = {k: build(v, None, tmpdir) for k, v in case['kw'].items()}
                 f = lambda: Array(*a, **kw)  # noqa: E731
                 where = 'Array.ctor'
+            # immutable bitstrings and token strings among the arguments: what they are worth before the call
+            involved = [x for x in list(locals().get('pos_args', [])) + list(locals().get('vals', [])) + list(locals().get('a', [])) + list(kw.values())]
+            watched_args = [(x, B(x), hash(x)) for x in involved if type(x) in (Bits, ConstBitStream)]
+            watched_strs = [(x, call(lambda x=x: B(Bits(x)))) for x in involved if isinstance(x, str) and len(x) < 200]
             kind, val = call(f)
             ctx.op(where, 'ok' if kind == 'ok' else type(val).__name__)
             fails = []
@@ -630,6 +634,18 @@ def judge_entry(ctx, case):
                 bad = invalid_state(val)
                 if bad:
                     fails.append(bad)
+                # the caller goes on to use what was returned: changing a mutable result in place must not reach the arguments
+                target = val.data if isinstance(val, Array) else val
+                if type(target) in (BitArray, BitStream):
+                    call(lambda: (target.invert() if len(target) else None, target.append('0b1')))
+                for x, bits_, h_ in watched_args:
+                    if B(x) != bits_ or hash(x) != h_:
+                        fails.append('immutable-argument-changed-after-result-mutated')
+                for x, before_ in watched_strs:
+                    if before_[0] == 'ok' and call(lambda x=x: B(Bits(x))) != before_:
+                        fails.append('token-string-meaning-changed-after-result-mutated')
+                        for _, c_ in util.find_caches():
+                            c_.cache_clear()
             if util.get_options() != before:
                 fails.append('options-changed')
             for a_ in list(locals().get('pos_args', [])) + list(locals().get('a', [])):
@@ -697,6 +713,11 @@ def gen_entry(ctx):
         c['args'] = [rng.choice(fam[j] if j < len(fam) and fam[j] else safe) for j in range(want)]
         if rng.random() < 0.4:
             c['kw'] = {'n': ['int', rng.choice([0, 1, 8, -1, 10 ** 5])]}
+        if rng.random() < 0.1:
+            # a lone bitstring item: the result is all there is of the argument
+            c['fmt'] = ['str', rng.choice(['bits', 'bits:4', 'bits', 'hex', 'bin'])]
+            c['args'] = [rng.choice([['bits', ['Bits', '1010']], ['bits', ['ConstBitStream', '1010']], ['bits', ['str', '1010']], ['str', 'a'], ['str', '0101']])]
+            c['kw'] = {}
     elif kind == 'Dtype':
         c['args'] = [['str', rng.choice(TOKENS_OK + TOKENS_BAD + ['uint', 'float', 'hex', 'bytes', 'e4m3mxfp', 'bool'])]]
         if rng.random() < 0.5:
